@@ -51,8 +51,15 @@ def run(ctx):
             if m:
                 env["VERIF_C09_ONLY"] = "%s:%s" % (m.group(1), m.group(2))
         lines, rc, err = ctx.run_driver(drv, ["all"], env=env)
+        crashed = None
         if rc != 0:
-            broken.append({"kind": "obligation", "name": "driver c09 crashed", "detail": err[-1500:]})
+            last = re.findall(r"^scenario (\w+) (\d+)$", err, re.M)
+            pan = re.search(r"^(panic: .*|fatal error: .*)$", err, re.M)
+            if last and pan:
+                # the code under test died while this scenario ran: a concrete failing schedule
+                crashed = {"op": last[-1][0], "n": last[-1][1], "why": pan.group(1)[:300]}
+            else:
+                broken.append({"kind": "obligation", "name": "driver c09 crashed", "detail": err[-1500:]})
         dis = ctx.correspond(lines, orc, "writer.go/reader.go/consumergroup.go/transport.go ↔ Model/WriterClose.lean, Model/ReaderClose.lean (observed-trace acceptance + monitor)")
         kinds = {}
         for l in lines:
@@ -73,6 +80,12 @@ def run(ctx):
     concrete = [d for d in dis if d.get("kind") == "disagreement" and not d["holds_on_impl"]]
     others = [d for d in dis if d not in concrete]
     recorded = 0
+    if orc is not None and drv is not None and crashed:
+        scen = "%s scenario %s (seed %d, tier %s)" % (crashed["op"], crashed["n"], ctx.seed, ctx.tier)
+        recorded += ctx.violation({"kind": "trace", "input": scen, "actual": "the process died while this scenario ran: " + crashed["why"],
+                                   "expected": "Close and every call return; no panic",
+                                   "monitor": "a panic / fatal error inside the library during a Close schedule"},
+                                  True, signature="%s crashed %s" % (crashed["op"], crashed["why"][:120]))
     for d in concrete[:5]:
         sc = re.search(r"sc=(\d+)", d["op"])
         scen = "%s scenario %s (seed %d, tier %s)" % (d["op"].split(" ")[0], sc.group(1) if sc else "?", ctx.seed, ctx.tier)
